@@ -163,6 +163,18 @@ def check_bfs_dfs(ctx: Ctx):
     ctx.ob("C11-O7", "R5 PAIRING", rp, "reconstruction follows parent pointers from the end node and reverses", "while current in parent" in t and "current = parent[current]" in t and "path.reverse()" in t and "path = [current]" in t, "", node=rp.node)
 
 
+def check_all_distances(ctx: Ctx):
+    """dijkstra_edges without target: the heap is drained (stale entries cost nothing but a pop), a popped entry is
+    skipped exactly when it is stale, and distances are lowered on strict improvement only"""
+    f = ctx.func("dijkstra", "dijkstra_edges")
+    loops = [n for n in own_nodes(f.node) if isinstance(n, ast.While) and any(isinstance(c, ast.Call) and ast.unparse(c.func) == "heappop" for c in ast.walk(n))]
+    ctx.floor("all-distances loops in dijkstra_edges", len(loops), 1)
+    for w in loops:
+        ctx.ob("C11-O1", "R2 BUDGET-EXIT", f, "the all-distances search runs until the heap is empty (no pop budget)", ast.unparse(w.test) == "heap", f"`while {ast.unparse(w.test)}`: stale heap entries also count as pops, so a budget of n pops can run out before every node was expanded, and reachable nodes keep a distance that is too large or none", node=w)
+        t = ast.unparse(w)
+        ctx.ob("C11-O1", "R21 search discipline", f, "a popped entry is skipped iff it is stale; an edge lowers a distance on strict improvement and pushes the new entry", "d, u = heappop(heap)" in t and "if d > dist.get(u, float('inf')):\n        continue" in t and "nd = d + w\n        if nd < dist.get(v, float('inf')):\n            dist[v] = nd\n            heappush(heap, (nd, v))" in t, "", node=w)
+
+
 def check_bellman_ford(ctx: Ctx):
     f = ctx.func("bellman_ford", "bellman_ford")
     cfg = cfg_of(f.node)
@@ -192,6 +204,12 @@ def check_bellman_ford(ctx: Ctx):
     ctx.ob("C11-O4", "R18 SIBLING-AGREEMENT (expression)", f, "detection uses the relaxation condition (strict, skipping unreached tails)", same and canon(conds_r[0]) == want, f"relax `{ast.unparse(conds_r[0]) if conds_r else '?'}` / detect `{ast.unparse(conds_d[0]) if conds_d else '?'}`", node=f.node)
     relax_body = "; ".join(ast.unparse(x) for x in ast.walk(inner) if isinstance(x, ast.Assign))
     ctx.ob("C11-O4", "R21 search discipline", f, "relaxation stores distance and parent together", "dist[v] = dist[u] + w" in relax_body and "parent[v] = u" in relax_body, relax_body, node=inner)
+    if detect:
+        dhead = cfg.stmt_node_containing(detect[0].iter)
+        for s in result_sites(f):
+            if "UNBOUNDED" in s.statuses:
+                continue
+            ctx.ob("C11-O4", "R14 GATE", f, "every answer other than UNBOUNDED is given after the negative-cycle detection pass", cfg.dominates(dhead, s.node) and s.node.loop is not dhead, "an answer that is returned before the pass (a shortcut for trivial queries) is OPTIMAL even when a negative cycle is reachable, and disagrees with the same call for any other target", node=s.call)
     for s in result_sites(f):
         at = gv.guard_atoms(s.node)
         if "UNBOUNDED" in s.statuses:
@@ -323,6 +341,7 @@ def run(ctx: Ctx):
     check_all_distances(ctx)
     check_bfs_dfs(ctx)
     check_bellman_ford(ctx)
+    check_all_distances(ctx)
     check_floyd(ctx)
     check_grid(ctx)
     generic_sweeps(ctx)
@@ -441,6 +460,19 @@ def _v_fw_skip_self_loops(tree):
     M.replace_stmt(g, lambda s: isinstance(s, ast.Assign) and M.src_is(s.targets[0], "dist[u][v]") and M.src_has(s.value, "min("), lambda s: M.stmts("if u == v:\n    continue") + [s])
 
 
+def _v_dj_pop_budget(tree):
+    g = M.find_func(tree, "dijkstra_edges")
+    w = [n for n in ast.walk(g) if isinstance(n, ast.While) and M.src_is(n.test, "heap")]
+    if not w:
+        raise M.Skip("all-distances loop not found")
+    w[0].test = M.expr("heap and iterations < n_nodes")
+
+
+def _v_bf_trivial_query_shortcut(tree):
+    g = M.find_func(tree, "bellman_ford")
+    M.replace_stmt(g, lambda s: isinstance(s, ast.Assign) and M.src_is(s.targets[0], "dist") and M.src_has(s.value, "float('inf')"), lambda s: M.stmts("if target is not None and target == start:\n    return Result([start], 0.0, 0, len(edges))") + [s])
+
+
 def _t_fw_swap_ij(tree):
     g = M.find_func(tree, "floyd_warshall")
     outer = [s for s in g.body if isinstance(s, ast.For) and M.src_is(s.target, "k")][0]
@@ -478,5 +510,7 @@ VARIANTS = [
     M.Variant("floyd_warshall relaxes only the cells above the diagonal when undirected (seed C11-C)", FW, _v_fw_upper_triangle, "C11-O5"),
     M.Variant("dijkstra's goal test is the bound method goal.__eq__ (seed C11-F)", DJ, _v_goal_bound_eq, "C11-G4"),
     M.Variant("floyd_warshall skips self loops when reading the edges (seed C12-E)", FW, _v_fw_skip_self_loops, "C11-O5"),
+    M.Variant("dijkstra_edges stops after n pops, stale entries included (seed C11-G)", DJ, _v_dj_pop_budget, "C11-O1"),
+    M.Variant("bellman_ford answers target == start before the detection pass (seed C11-H)", BF, _v_bf_trivial_query_shortcut, "C11-O4"),
     M.Variant("twin: floyd_warshall i/j loops swapped", FW, _t_fw_swap_ij, None),
 ]
